@@ -560,6 +560,9 @@ fn alphabet(cfg: &Cfg, mode: Mode, w: &World, tier: Tier) -> Vec<ROp> {
         // a capacity overflow (caught); the window must still be what it was. Short streams only.
         if cfg.n <= 3 && cfg.lie.is_none() && w.reader.verif_state().chunk_size != 0 && w.reader.verif_state().chunk_size < HUGE_CHUNK {
             ops.push(ROp::SetChunk(HUGE_CHUNK));
+            // (2^63 makes `2 * chunk` wrap to zero, usize::MAX does not: different paths in a build
+            // without overflow checks)
+            ops.push(ROp::SetChunk(usize::MAX));
         }
     }
     ops
